@@ -122,7 +122,7 @@ PROPS = {
     "C18": {"mc": [{"module": "MC_Config", "quick": "MC_Config.cfg", "thorough": "MC_Config.cfg", "workers": 4, "emits": "MC_Config"}],
             "suites": [{"suite": "config", "trace": "Trace_Config", "cfg": "Trace_Config.cfg", "sched_from": "MC_Config",
                         "extra": {"mode": "sched"}, "quick": {"runs": 0}, "thorough": {"runs": 0}, "procs": 6},
-                       POOL_SUITE, VAULT_SUITE, TRIO_SUITE]},
+                       POOL_SUITE, VAULT_SUITE, TRIO_SUITE, DIST_RANDOM]},
     "C19": {"mc": [m for m, _ in _REG], "suites": [x for _, x in _REG]},
     "C09": {"mc": [MC_DIST, MC_DIST_SCHED, {"module": "MC_BondedClaims", "quick": "MC_BondedClaims_quick.cfg", "thorough": "MC_BondedClaims.cfg", "workers": 4}], "suites": [DIST_SCHED, DIST_RANDOM, DIST_MULTI]},
     "C10": {"mc": [{"module": "MC_Pipeline", "quick": "MC_Pipeline.cfg", "thorough": "MC_Pipeline.cfg", "workers": 4, "emits": "MC_Pipeline"}, MC_DIST],
